@@ -1190,7 +1190,7 @@ func genTopo(rt *rapid.T, g kGenOpt) kTopo {
 	// slot ranges: cut the slot space into pieces, deal them to the primaries, leave some unowned
 	nPieces := nPrim * rapid.IntRange(1, 2).Draw(rt, "piecesPerPrimary")
 	cuts := map[int]bool{}
-	for len(cuts) < nPieces-1 {
+	for tries := 0; len(cuts) < nPieces-1 && tries < 64; tries++ {
 		cuts[rapid.IntRange(1, 16383).Draw(rt, "cut")] = true
 	}
 	bounds := []int{0}
@@ -1262,7 +1262,7 @@ func genSlots(rt *rapid.T, tp kTopo, n int, allowUnowned bool) []int {
 	}
 	seen := map[int]bool{}
 	var out []int
-	for len(out) < n {
+	for tries := 0; len(out) < n && tries < 4*n+8; tries++ { // a tiny slot space may not have n different slots
 		r := rapid.SampledFrom(owned).Draw(rt, "slotRange")
 		s := r[0]
 		switch rapid.IntRange(0, 3).Draw(rt, "slotPos") {
